@@ -322,7 +322,8 @@ fn exotic_item(rng: &mut Rng, k: usize) -> String {
             let recv = ["app", "window", "webview", "self.app", "self.window", "state.webview", "get_handle()", "app.clone()", "ctx.app_handle()", "w", "emitter"];
             let mut body = String::new();
             for _ in 0..1 + rng.below(4) {
-                let m = ["emit", "emit_to", "emit_filter", "emit_str", "emit_all"][rng.below(5)];
+                let m = ["emit", "emit_to", "emit_filter", "emit_str", "emit_all", "emit::<>", "emit::<Progress>", "emit::<_>", "emit_to::<_, Progress>", "emit_to::<_>", "emit_to::<>",
+                    "emit::<Vec<(u8, String)>>", "emit::<'static, u8>"][rng.below(13)];
                 let nargs = rng.below(5);
                 let args: Vec<String> = (0..nargs).map(|q| match rng.below(5) {
                     0 => lit(rng),
@@ -333,7 +334,18 @@ fn exotic_item(rng: &mut Rng, k: usize) -> String {
                 }).collect();
                 body.push_str(&format!("    {}.{}({}){};\n", recv[rng.below(recv.len())], m, args.join(", "), ["", ".ok()", ".unwrap()", "?"][rng.below(4)]));
             }
-            format!("#[tauri::command]\nfn evx_{}(app: tauri::AppHandle, window: tauri::Window, webview: tauri::Webview, payload: u8) -> Result<(), String> {{\n{}    Ok(())\n}}\n", k, body)
+            // bindings of every pattern form in front of the emits (the symbol table is fed from them)
+            let lets = ["let (first, .., last): (A, B) = pair;", "let (a, b): (u8,) = one;", "let [x, .., y] = arr;", "let Some(v) = maybe else { return Ok(()) };",
+                "let S { x, .. }: S = s;", "let (a, (b, c)): (A, (B,)) = nested;", "let _: () = ();", "let ref mut r: Vec<u8> = v;", "let (.., z): () = ();",
+                "let ((), payload): ((), Progress) = ((), p);", "let x: = 1;", "let &(a, b): &(u8, u8) = &t;", "let (a | a): u8 = 1;"];
+            let mut pre = String::new();
+            for _ in 0..rng.below(3) {
+                let l = lets[rng.below(lets.len())];
+                if l != "let x: = 1;" {
+                    pre.push_str(&format!("    {}\n", l));
+                }
+            }
+            format!("#[tauri::command]\nfn evx_{}(app: tauri::AppHandle, window: tauri::Window, webview: tauri::Webview, payload: u8) -> Result<(), String> {{\n{}{}    Ok(())\n}}\n", k, pre, body)
         }
         4 => format!("#[tauri::command]\nfn ev_{}(app: tauri::AppHandle, w: tauri::Window) {{ app.emit({}, {}).unwrap(); w.emit_to(\"main\", \"e{}\", ({}, 1)).ok(); let f = |x: u8| app.emit(\"closure-{}\", x); loop {{ break; }} }}\n",
             k, lit(rng), ["1u8", "\"s\"", "S{x:1}", "vec![1]", "&payload", "payload.clone()", "()", "None::<u8>", "m!(1)", "async { 1 }.await"][rng.below(10)], k, lit(rng), k),
